@@ -345,3 +345,19 @@ func (p *Program) FieldName(fv *types.Var) string {
 	}
 	return fv.Name()
 }
+
+// IsAnchor reports whether the rules name a function by this (canonical) name.
+func (p *Program) IsAnchor(name string) bool {
+	var af anchorFile
+	if anchorNames == nil {
+		anchorNames = map[string]bool{}
+		if len(anchorsJSON) > 0 && json.Unmarshal(anchorsJSON, &af) == nil {
+			for n := range af.Funcs {
+				anchorNames[n] = true
+			}
+		}
+	}
+	return anchorNames[name]
+}
+
+var anchorNames map[string]bool
